@@ -3,6 +3,7 @@
    t_iter t (what iteration yields); Inv is the representation invariant. *)
 From Coq Require Import List ZArith Bool.
 From PyD Require Import Base.Str Base.PySlice Model.TsdbFiles Model.Table Proofs.TableP Proofs.TableP2.
+From PyD Require Import Model.Process Proofs.ProcessP.
 Import ListNotations.
 
 Theorem C10_open : forall f, Inv (open_table f) /\ t_iter (open_table f) = content f.
@@ -95,3 +96,33 @@ Theorem C10_history : forall f ops,
   (forall s, t_slice t s = py_slice (fst (view t)) s).
 Proof. exact history_from_open. Qed.
 Print Assumptions C10_history.
+
+(* batch processing (TestSuite.process) with any buffer size: afterwards every
+   relation holds, in memory and on disk alike, what it held before (nothing, if the
+   field mapper clears it) followed by exactly the rows produced for it, in order and
+   once each, whatever the commits the buffer triggered on the way; no relation is in
+   a transaction and a later commit changes neither *)
+Theorem C10_process : forall affected prod bs gzflag ts0,
+  Forall (fun nt => Inv (snd nt)) ts0 ->
+  Forall2 (fun nt0 nt =>
+             fst nt = fst nt0 /\ Inv (snd nt) /\
+             t_iter (snd nt) = expected affected prod nt0 /\
+             lines_of (snd nt) = expected affected prod nt0 /\
+             in_transaction (snd nt) = false /\
+             t_len (snd nt) = length (expected affected prod nt0) /\
+             t_iter (t_commit (snd nt)) = expected affected prod nt0 /\
+             lines_of (t_commit (snd nt)) = expected affected prod nt0)
+          ts0 (process affected prod bs gzflag ts0).
+Proof. exact process_spec. Qed.
+Print Assumptions C10_process.
+
+Theorem C10_process_nonvacuous :
+  Forall (fun nt => Inv (snd nt)) ex_ts0 /\
+  commits 1 (clear_affected [[112]%N; [114]%N] ex_ts0) ex_prod = 1 /\
+  map (fun nt => (t_iter (snd nt), lines_of (snd nt)))
+      (process [[112]%N; [114]%N] ex_prod 1 false ex_ts0)
+  = [([[[49]%N]], [[[49]%N]]);
+     ([[[48]%N]; [[49]%N]], [[[48]%N]; [[49]%N]]);
+     ([[[97]%N]; [[98]%N]], [[[97]%N]; [[98]%N]])].
+Proof. exact process_example. Qed.
+Print Assumptions C10_process_nonvacuous.
